@@ -243,6 +243,13 @@ type c12Op struct {
 	Shape    int     `json:"shape"` // how the values are passed: 0 = one *T per target, 1 = one []T, 2 = one []*T
 	Arg      int     `json:"arg,omitempty"`   // state of the argument records: c12ArgFresh | Loaded | Preload | Stale | KeyOnly
 	Empty    bool    `json:"empty,omitempty"` // single owner, no value: pass ONE EMPTY SLICE (shape 1 / 2) instead of no argument at all
+	// the HANDLE the call goes through (c12_handles.go): 0 = a fresh `db.Model(x).Association(f)` per call (`.Unscoped()` chained when
+	// Unscoped), 1 = the handle kept in a variable `a`, 2 = `b := a.Unscoped()` kept in a second variable (Unscoped is then true)
+	Via   int  `json:"via,omitempty"`
+	Renew bool `json:"renew,omitempty"` // Via 1/2: `a` is built anew before this call
+	Touch int  `json:"touch,omitempty"` // before the call, on the plain handle: c12Touch* (Unscoped() called, result dropped / used for a read / kept)
+	Other int  `json:"other,omitempty"` // before the call, a handle of ANOTHER relation of the same record is used: c12Other*
+	Bad   bool `json:"bad,omitempty"`   // before the call, the same handle receives an Append of a value of the wrong type (the call fails, nothing is written)
 }
 
 type c12Seq struct {
@@ -280,6 +287,8 @@ type c12Obs struct {
 	Stmts   []string `json:"stmts"`   // write statements sent for this step: "INSERT c12_items", "UPDATE c12_items", ...
 	Names   map[int]string
 	Labels  []string `json:"labels"` // labels of the argument targets in flattened order
+	BadErr  string   `json:"bad_err,omitempty"` // what the deliberately ill-typed Append returned ("" = it was accepted)
+	Side    string   `json:"side,omitempty"`    // trouble of the side calls (Unscoped().Count() / handle of the other relation)
 }
 
 func c12TargetType(k *c12Kind) reflect.Type {
@@ -699,6 +708,7 @@ func c12ExecTrace(s c12Seq, trace func(step int, evs []Event)) []c12Obs {
 
 	var out []c12Obs
 	names := map[int]string{}
+	hs := &c12Handles{}
 	for step, op := range s.Ops {
 		o := c12Obs{}
 		var recs []reflect.Value
@@ -748,10 +758,7 @@ func c12ExecTrace(s c12Seq, trace func(step int, evs []Event)) []c12Obs {
 					o.Err = fmt.Sprint("panic: ", p)
 				}
 			}()
-			as := db.Model(model).Association(k.Field)
-			if op.Unscoped {
-				as = as.Unscoped()
-			}
+			as := hs.handle(db, model, k, op, &o)
 			var err error
 			switch op.Op {
 			case "append":
